@@ -1,6 +1,6 @@
 (* C07 - reconstructions equal their defining linear-algebra problems. *)
 From MrVerif Require Import Base.Prelude Base.StarRing Base.Sums Model.OpAlg Model.ElemOps Model.CG Model.Recon
-  Proofs.OpAlgProofs Proofs.CGProofs Proofs.CGProofsInst Proofs.ReconProofs.
+  Proofs.OpAlgProofs Proofs.CGProofs Proofs.CGProofsInst Proofs.ReconProofs Proofs.PrewhitenProofs.
 From Coq Require Import QArith Qcanon.
 
 (* direct reconstruction = S^H F^H W^H y (W^H = W for a real density compensation), linear in the data, and the
@@ -50,3 +50,22 @@ Print Assumptions C07_converged_solves.
 Example C07_example : reg_sense_run [[2#1;0#1];[0#1;1#1]] [[1#1;0#1];[0#1;1#1]] (1#1) [3#1;1#1] [0#1;1#1] 3
   = (0%nat, [(1,1);(1,1)]%Z, snd (reg_sense_run [[2#1;0#1];[0#1;1#1]] [[1#1;0#1];[0#1;1#1]] (1#1) [3#1;1#1] [0#1;1#1] 3)).
 Proof. vm_compute. reflexivity. Qed.
+
+(* "Prewhitening maps the noise scan itself to unit coil covariance": prewhiten_kspace forms C = (1/m) N N^H over all m noise samples,
+   L = torch.linalg.cholesky(C) and X = torch.linalg.solve_triangular(L, data).  With the contracts of the two torch calls (L L^H = C, L
+   invertible; L X = N when the data are the noise scan itself) the whitened noise has covariance (1/m) X X^H = I - for every number of
+   coils and samples and every commutative *-ring (s stands for 1/m).  The contracts themselves are checked on the implementation. *)
+Theorem C07_prewhiten_unit_covariance : forall (R : StarRing) n m (s : R) (N L Li X : nat -> nat -> R),
+  meq R n n (mm R n L (mH R L)) (cov R m s N) -> meq R n n (mm R n Li L) (mI R) -> meq R n m (mm R n L X) N ->
+  meq R n n (cov R m s X) (mI R).
+Proof. exact prewhiten_unit_covariance. Qed.
+Print Assumptions C07_prewhiten_unit_covariance.
+(* non-vacuity: two coils, two samples over Z: N = L = [[1,0],[1,1]], C = L L^T = [[1,1],[1,2]], L^-1 = [[1,0],[-1,1]], X = identity *)
+Example C07_prewhiten_example :
+  let L : nat -> nat -> Z := fun i j => match i, j with 0%nat, 0%nat => 1%Z | 1%nat, 0%nat => 1%Z | 1%nat, 1%nat => 1%Z | _, _ => 0%Z end in
+  let Li : nat -> nat -> Z := fun i j => match i, j with 0%nat, 0%nat => 1%Z | 1%nat, 0%nat => (-1)%Z | 1%nat, 1%nat => 1%Z | _, _ => 0%Z end in
+  meq ZRing 2 2 (mm ZRing 2 L (mH ZRing L)) (cov ZRing 2 1%Z L) /\ meq ZRing 2 2 (mm ZRing 2 Li L) (mI ZRing) /\
+  meq ZRing 2 2 (mm ZRing 2 L (mI ZRing)) L.
+Proof.
+  cbv zeta. repeat split; intros [|[|i]] [|[|j]] Hi Hj; try lia; vm_compute; reflexivity.
+Qed.
